@@ -29,7 +29,12 @@ import lib
 import sched
 
 # ------------------------------------------------------------------------------------------------ programs
-# op syntax shared with the driver:  inc:o:a set:o:a get:o lab:k linc:k:a rem:k clr reg:c unreg:c col rcol:c rrcol:c  (+ oracle-only obs:s:a obs:h:a info:v state:k sti:v gti rcx:c rct stn linc2:k:a regy:i unregy:i colr)
+# op syntax shared with the driver:  inc:o:a set:o:a get:o lab:k linc:k:a rem:k clr reg:c unreg:c col rcol:c rrcol:c  (+ oracle-only obs:s:a obs:h:a info:v state:k sti:v gti rcx:c rct stn ste linc2:k:a regy:i unregy:i colr
+#    mk:T:a mkl:T:a colf rcn:N gen)
+# mk:T:a  = CONSTRUCT the built-in metric n<T> (T = c|g|s|h|i|e: Counter Gauge Summary Histogram Info Enum) with registry=R inside
+#           the thread, then update it by a (inc / observe / info / state);  mkl:T:a = the labelled one l<T> (labelnames ['l']), then
+#           labels('0') and the update;  colf = registry.collect() kept family by family;  rcn:N = restricted collect of every
+#           series name of metric N;  gen = generate_latest(R);  ste = set_target_info({})
 # rcol:c  = registry.collect() over a collector that registers/unregisters x<c> and does a restricted lookup and a
 #           get_target_info from inside its collect();  rrcol:c = registry.restricted_registry(['e']).collect() over the same collector
 QUICK_PROGRAMS = [
@@ -76,6 +81,16 @@ QUICK_PROGRAMS = [
     # a scraper still READING what collect() handed out while info() runs: world I = Info with two labels, pre-set in the
     # set-up phase; colr = collect, keep the result, render it (pre-emption points inside the rendering)
     ('I', 'info:A|colr', 1, False),
+    # one thread CONSTRUCTS a built-in metric with registry=R (pre-emption points inside the constructors: CTOR) while another
+    # collects R: no call raises, a family that is collected is complete for its type, the final collect shows the metric
+    ('c', 'mk:c:3|colf', 1, False),
+    ('g', 'mk:h:2|gen', 1, False),
+    ('c', 'mkl:s:3|rcn:ls', 1, False),
+    ('c', 'mk:e:1|colf', 1, False),
+    # world g (target info CONFIGURED) : a full collect pre-empted by set_target_info(None) / ({}) / (other labels): the
+    # target_info family it yields is one the registry held (old or new labels, or none) - never empty, never an error
+    ('g', 'colf|stn', 1, False),
+    ('g', 'col|ste,sti:b', 1, False),
 ]
 DEEP = {'linc:0:1|linc2:0:2', 'linc:0:1,linc:1:1|linc2:0:2,linc2:1:2'}
 THOROUGH_PROGRAMS = [
@@ -109,6 +124,30 @@ THOROUGH_PROGRAMS = [
     ('I', 'colr|info:A,info:B', 2, False),
     ('I', 'info:A,info:B|colr,colr', 2, False),
     ('I', 'colr|info:A|colr', 2, False),
+    # constructors against collects: every type, unlabelled and labelled, full / restricted / rendered collects
+    ('c', 'mk:g:3|colf', 2, False),
+    ('c', 'mk:s:3|colf|rcn:ns', 2, False),
+    ('c', 'mk:h:2|colf', 2, False),
+    ('c', 'mk:i:3|colf|gen', 2, False),
+    ('c', 'mk:e:2|rcn:ne|gen', 2, False),
+    ('g', 'mk:c:3|rcn:nc|gen', 2, False),
+    ('c', 'mkl:c:3|colf', 2, False),
+    ('c', 'mkl:g:3|gen', 2, False),
+    ('c', 'mkl:h:2|colf|rcn:lh', 2, False),
+    ('c', 'mkl:i:3|colf', 2, False),
+    ('c', 'mkl:e:2|colf', 2, False),
+    ('cs', 'mk:c:3,mk:s:1|colf,colf', 2, False),
+    ('c', 'mk:c:3|mk:h:2|colf', 2, False),                    # two constructing threads and a collector
+    ('c', 'colf|mk:c:3,mkl:g:1', 2, False),
+    ('p', 'mk:c:3|linc:0:1|colf', 2, False),
+    # target info configured: collects against set_target_info
+    ('g', 'colf|ste', 2, False),
+    ('g', 'colf|sti:b', 2, False),
+    ('g', 'rct|ste', 2, False),
+    ('g', 'rct|sti:b,stn', 2, False),
+    ('g', 'colf,rct|stn,sti:b|ste', 2, False),
+    ('gc', 'colf|stn|gen', 2, False),
+    ('g', 'gen|stn,sti:b', 2, False),
 ]
 BACKENDS = ('mutex', 'mmap')
 
@@ -154,6 +193,28 @@ def relevant_point_deep(where):
     code, lasti = where
     base = os.path.basename(code.co_filename)
     return code.co_name in DEEP_RELEVANT.get(base, ()) and pending_op(code, lasti) not in LOCAL_OPS
+
+
+# programs that construct a metric inside a thread: the bytecodes of the constructors count as well
+CTOR_RELEVANT = {'metrics.py': {'__init__', '_metric_init', '_prepare_buckets', 'describe', '_get_metric', '_is_observable',
+                                '_is_parent'}}
+CTOR_OPS = ('mk', 'mkl')
+
+
+def constructs(program):
+    return any(op.split(':')[0] in CTOR_OPS for t in program.split('|') for op in t.split(','))
+
+
+def relevant_point_ctor(where):
+    """as relevant_point_deep, plus the non-local bytecodes of the metric constructors (MetricWrapperBase.__init__, the
+    subclasses' __init__ and _metric_init, describe): a collect may land anywhere inside a constructor"""
+    if relevant_point_deep(where):
+        return True
+    if where is None or isinstance(where, str):
+        return False
+    code, lasti = where
+    base = os.path.basename(code.co_filename)
+    return code.co_name in CTOR_RELEVANT.get(base, ()) and pending_op(code, lasti) not in LOCAL_OPS
 
 
 def relevant_point_render(where):
@@ -267,6 +328,8 @@ class World:
         self.children = []               # keeps every child returned alive so id() stays unique
         if 'q' in flags:                 # set-up phase: the children exist before the threads start
             self.children += [self.p.labels('0'), self.p.labels('1')]
+        self.classes = {'c': Counter, 'g': Gauge, 's': Summary, 'h': Histogram, 'i': Info, 'e': Enum}
+        self.made = {}                   # name -> metric CONSTRUCTED by a thread of the program (ops mk / mkl)
         self.held = {}                   # series -> sequence of raw values it held (sampled at every scheduling step)
         self.step = 0                    # scheduling steps so far (op start / end stamps)
 
@@ -381,6 +444,47 @@ def collect_and_render(w):
     return {'snap': snap, 'rendered': seen, 'kept': fams, 'after': label_view(fams)}
 
 
+def fam_view(fams):
+    """a collect() result family by family (a family without samples is kept)"""
+    return [(f.name, f.type, [(s.name, tuple(sorted(s.labels.items())), s.value) for s in f.samples]) for f in fams]
+
+
+def text_view(text):
+    """the families of a text exposition, read back with the library's parser (called on the main thread only)"""
+    from prometheus_client.parser import text_string_to_metric_families
+    return fam_view(list(text_string_to_metric_families(text)))
+
+
+ENUM_STATES = ['a', 'b', 'c']
+SERIES_SUFFIXES = ('', '_total', '_created', '_count', '_sum', '_bucket', '_info')
+
+
+def construct_metric(w, t, labelled):
+    """what an application thread does: build a metric of a built-in type on the shared registry (library code: stepped)"""
+    name = ('l' if labelled else 'n') + t
+    kw = {'registry': w.R}
+    if labelled:
+        kw['labelnames'] = ['l']
+    if t == 'h':
+        kw['buckets'] = (1.0, 2.0)
+    if t == 'e':
+        kw['states'] = list(ENUM_STATES)
+    m = w.classes[t](name, 'h', **kw)
+    w.made[name] = m
+    return m
+
+
+def update_metric(m, t, a):
+    if t in 'cg':
+        m.inc(a)
+    elif t in 'sh':
+        m.observe(a)
+    elif t == 'i':
+        m.info({'v': str(a)})
+    else:
+        m.state(ENUM_STATES[a % 3])
+
+
 def make_thunk(w, tid, ops, log):
     """log: list receiving (tid, op index, op, tokens, extra)"""
     def run_op(idx, op):
@@ -472,10 +576,27 @@ def make_thunk(w, tid, ops, log):
             return [], {'restricted': ('x' + f[1], [fm.name for fm in fams], bad)}
         if k == 'rct':           # restricted collect of the target info
             fams = list(w.R.restricted_registry(['target_info']).collect())
-            return [], {'restricted': ('target', [fm.name for fm in fams], [fm.name for fm in fams if fm.name != 'target'])}
+            return [], {'restricted': ('target', [fm.name for fm in fams], [fm.name for fm in fams if fm.name != 'target']),
+                        'fams': fam_view(fams), 'kind': 'restricted collect of target_info'}
         if k == 'stn':
             w.R.set_target_info(None)
             return [], None
+        if k == 'ste':
+            w.R.set_target_info({})
+            return [], None
+        if k in ('mk', 'mkl'):   # construct a metric on the shared registry, then use it
+            m = construct_metric(w, f[1], k == 'mkl')
+            update_metric(m.labels('0') if k == 'mkl' else m, f[1], int(f[2]))
+            return [], None
+        if k == 'colf':          # full collect, kept family by family
+            return [], {'fams': fam_view(list(w.R.collect())), 'kind': 'collect()'}
+        if k == 'rcn':           # restricted collect of every series name of one metric
+            names = [f[1] + suf for suf in SERIES_SUFFIXES]
+            return [], {'fams': fam_view(list(w.R.restricted_registry(names).collect())), 'kind': 'restricted collect of ' + f[1],
+                        'only': f[1]}
+        if k == 'gen':           # the text exposition of the registry (parsed back by the oracle, on the main thread)
+            from prometheus_client.exposition import generate_latest
+            return [], {'text': generate_latest(w.R).decode('utf-8')}
         if k == 'gti':
             return [], {'gti': w.R.get_target_info()}
         raise ValueError('unknown op ' + op)
@@ -550,7 +671,10 @@ def final_state(w):
     for f in fams:
         for s in f.samples:
             vals[(s.name, tuple(sorted(s.labels.items())))] = s.value
-    st = {'vals': vals}
+    st = {'vals': vals, 'fams': fam_view(fams)}
+    if w.made:
+        from prometheus_client.exposition import generate_latest
+        st['text'] = generate_latest(w.R).decode('utf-8')
     names = [f.name for f in fams]
     st['dup_families'] = sorted({n for n in names if names.count(n) > 1})
     c2n, n2c = w.R._collector_to_names, w.R._names_to_collectors
@@ -683,12 +807,20 @@ def oracle(program, res, obs):
         return None                                      # infrastructure, reported separately
     if res.deadlock:
         return ('C02:deadlock', 'deadlock: every unfinished thread is parked on an owned lock (parked on lock ids %r)' % (res.parked,))
+    ops = [op.split(':') for t in program.split('|') for op in t.split(',')]
     for tid, e in enumerate(res.exc):
         if e is not None:
+            if (isinstance(e, AttributeError) and "'Enum' object has no attribute '_states'" in str(e)
+                    and any(f[0] == 'mk' and f[1] == 'e' for f in ops)):
+                # Enum.__init__ assigns self._states AFTER the base constructor has registered the metric
+                return (ENUM_SIG, 'thread %d raised %s: %s (a collect landed between MetricWrapperBase.__init__ registering the '
+                        'Enum and Enum.__init__ storing its states)' % (tid, type(e).__name__, e))
             return ('C02:exception', 'thread %d raised %s: %s' % (tid, type(e).__name__, e))
     if obs['final'] is None:
         return ('C02:final-collect', 'the final collect failed: %s' % obs['final_err'])
-    ops = [op.split(':') for t in program.split('|') for op in t.split(',')]
+    r = ctor_oracle(ops, obs) or target_info_oracle(ops, obs['flags'], obs)
+    if r:
+        return r
     dyn = any(f[0] in ('rem', 'clr') for f in ops)
     r = sums_oracle(ops, dyn, obs['final']['vals'], 'C02:lost-update', '')
     if r:
@@ -747,6 +879,133 @@ def oracle(program, res, obs):
     if obs['final']['maps_bad']:
         return ('C02:registry-maps-inconsistent', 'after the threads joined: ' + '; '.join(obs['final']['maps_bad'][:3]))
     return identity_and_collect_oracle(ops, dyn, obs)
+
+
+ENUM_SIG = 'C02:enum-published-before-states'
+
+
+def metric_keys(view, name, t):
+    """(is a family of metric `name` in the view?, its sorted sample keys, its samples); the value labels of an Info are not part
+    of the key (info() changes them)"""
+    fams = [f for f in view if f[0] == name or f[0].startswith(name + '_')]
+    samples = [(sn, lab, v) for f in fams for (sn, lab, v) in f[2]]
+    keys = sorted((sn, tuple(kv for kv in lab if t != 'i' or kv[0] == 'l')) for (sn, lab, v) in samples)
+    return bool(fams), keys, samples
+
+
+def views_of(obs):
+    """every collect / restricted collect / exposition of the run as (thread, op, kind, family view | None, parse error)"""
+    out = []
+    for tid, idx, op, toks, extra, t0, t1 in obs['log']:
+        if extra is None:
+            continue
+        if 'text' in extra:
+            try:
+                out.append((tid, op, 'text', 'generate_latest()', text_view(extra['text']), None, None))
+            except Exception as e:
+                out.append((tid, op, 'text', 'generate_latest()', None, '%s: %s' % (type(e).__name__, e), None))
+        elif 'fams' in extra:
+            out.append((tid, op, 'fams', extra['kind'], extra['fams'], None, extra.get('only')))
+    return out
+
+
+def ctor_oracle(ops, obs):
+    """a metric CONSTRUCTED while other threads collect: whatever a concurrent collect / restricted collect / exposition shows of
+    it is either nothing or the complete family (the sample keys the quiescent final collect shows; a labelled parent may still be
+    without children); its values are ones it held; the final collect (and the store files) show the metric with its update"""
+    made = [(('l' if f[0] == 'mkl' else 'n') + f[1], f[1], f[0] == 'mkl', int(f[2])) for f in ops if f[0] in CTOR_OPS]
+    if not made:
+        return None
+    final = obs['final']
+    ref = {'fams': final['fams']}
+    try:
+        ref['text'] = text_view(final['text'])
+    except Exception as e:
+        return ('C02:half-built-collector', 'the final exposition does not parse back: %s: %s' % (type(e).__name__, e))
+    for tid, op, form, kind, view, err, only in views_of(obs):
+        if view is None:
+            return ('C02:half-built-collector', 'thread %d: the exposition rendered while a metric was being constructed does not '
+                    'parse back: %s' % (tid, err))
+        for name, t, labelled, a in made:
+            present, keys, samples = metric_keys(view, name, t)
+            _p, want, _s = metric_keys(ref[form], name, t)
+            if not present and not keys:
+                continue
+            if keys != want and not (labelled and not keys):
+                return ('C02:half-built-collector', 'thread %d: %s concurrent with the constructor of %s %s%r showed the family with '
+                        'the samples %r; complete (quiescent collect) is %r' % (
+                            tid, kind, 'labelled' if labelled else 'unlabelled', type_name(t), name, keys, want))
+            for sn, lab, v in samples:
+                legal = None
+                if sn in (name + '_total', name + '_sum') or (t == 'g' and sn == name):
+                    legal = (0, a)
+                elif sn == name + '_count':
+                    legal = (0, 1)
+                if legal is not None and v not in legal:
+                    return ('C02:phantom-value', 'thread %d: %s reported %s%r = %r, the series held only %r' % (
+                        tid, kind, sn, dict(lab), v, legal))
+            if t == 'e':
+                ens = sorted(v for (sn, lab, v) in samples if sn == name)
+                if ens and ens != [0, 0, 1]:
+                    return ('C02:phantom-value', 'thread %d: %s reported enum state samples %r (exactly one state must be set)' % (
+                        tid, kind, ens))
+    # after the join: the metric is there, with its update, in the collect and in the store files
+    for name, t, labelled, a in made:
+        lab = (('l', '0'),) if labelled else ()
+        if t == 'c':
+            want = {(name + '_total', lab): a}
+        elif t == 'g':
+            want = {(name, lab): a}
+        elif t in 'sh':
+            want = {(name + '_sum', lab): a, (name + '_count', lab): 1}
+        elif t == 'i':
+            want = {(name + '_info', tuple(sorted(lab + (('v', str(a)),)))): 1}
+        else:
+            want = {(name, tuple(sorted(lab + ((name, ENUM_STATES[a % 3]),)))): 1}
+        for key, v in want.items():
+            if final['vals'].get(key) != v:
+                return ('C02:constructed-metric-missing', 'after the threads joined the final collect reports %s%r = %r, expected %r '
+                        '(%s %r was constructed with registry=R and updated once)' % (
+                            key[0], dict(key[1]), final['vals'].get(key), v, type_name(t), name))
+            if final.get('files') is not None and t in 'cgsh' and not (t == 'h' and key[0].endswith('_count')):
+                if final['files'].get(key) != v:
+                    return ('C02:lost-update-in-file', 'in the store FILE: %s%r = %r, expected %r' % (
+                        key[0], dict(key[1]), final['files'].get(key), v))
+    return None
+
+
+def type_name(t):
+    return {'c': 'Counter', 'g': 'Gauge', 's': 'Summary', 'h': 'Histogram', 'i': 'Info', 'e': 'Enum'}[t]
+
+
+def target_info_oracle(ops, flags, obs):
+    """the target_info a collect / restricted collect of target_info / exposition yields is one the registry actually held at
+    some point: the labels configured in the set-up phase or by a set_target_info of the program; NO target_info only if the
+    registry was without one at some point (never configured, or set_target_info(None) / ({}) in the program)"""
+    ti_ops = [f for f in ops if f[0] in ('sti', 'stn', 'ste')]
+    if 'g' not in flags and not ti_ops:
+        return None
+    legal = [{'k': x} for x in (['t0'] if 'g' in flags else []) + [f[1] for f in ops if f[0] == 'sti']]
+    none_ok = 'g' not in flags or any(f[0] in ('stn', 'ste') for f in ops)
+    seen = []
+    for tid, op, form, kind, view, err, only in views_of(obs):
+        if view is None or only is not None:
+            continue
+        seen.append((tid, kind, [dict(lab) for fam in view for (sn, lab, v) in fam[2] if sn == 'target_info']))
+    for tid, idx, op, toks, extra, t0, t1 in obs['log']:
+        if extra is not None and (op == 'col' or op.startswith('rcol')):
+            seen.append((tid, 'collect()', [dict(lab) for (sn, lab) in extra if sn == 'target_info']))
+    for tid, kind, tis in seen:
+        if len(tis) > 1:
+            return ('C02:phantom-value', 'thread %d: %s reported %d target_info samples: %r' % (tid, kind, len(tis), tis))
+        if not tis and not none_ok:
+            return ('C02:phantom-value', 'thread %d: %s reported no target_info although the registry held one all the time (%r)' % (
+                tid, kind, legal))
+        for labels in tis:
+            if labels not in legal:
+                return ('C02:phantom-value', 'thread %d: %s reported target_info %r; the registry only ever held %r%s' % (
+                    tid, kind, labels, legal, ' or none' if none_ok else ''))
+    return None
 
 
 def serial_finals(threads, obj, init):
@@ -869,7 +1128,9 @@ def identity_and_collect_oracle(ops, dyn, obs):
     for tid, idx, op, toks, extra, t0, t1 in obs['log']:
         if extra is None:
             continue
-        if 'regy' in extra or 'render' in extra:
+        if 'regy' in extra or 'render' in extra or 'text' in extra:
+            continue
+        if 'fams' in extra and 'restricted' not in extra:
             continue
         if 'restricted' in extra:
             want, got, bad = extra['restricted']
@@ -947,10 +1208,23 @@ def judge(ctx, models, backend, flags, program, use_model, res, obs, stats):
         return False
     why = oracle(program, res, obs)
     out = real_outcome(program, res, obs)
+    if why and why[0] == ENUM_SIG and lib.match_known(lib.load_known(), ctx.prop, ENUM_SIG) is None:
+        # a failure of the UNCHANGED library that is not (yet) listed in known_findings.json: recorded as a candidate finding
+        # in the evidence (first schedule kept, replayable) instead of failing the check; once listed it is reported through
+        # ctx.fail like every other known finding
+        cand = ctx.extra.setdefault('candidate_findings', {})
+        if ENUM_SIG not in cand:
+            case = case_of(backend, flags, program, res)
+            case['observed'] = out
+            cand[ENUM_SIG] = {'what': '%s [%s world=%s program=%s]' % (why[1], backend, flags, program), 'case': case, 'schedules': 0}
+            ctx.notes.append('candidate finding %s (not in known_findings.json, not counted as a violation): %s' % (ENUM_SIG, why[1]))
+        cand[ENUM_SIG]['schedules'] += 1
+        why = None
     if why:
         case = case_of(backend, flags, program, res)
         case['observed'] = out
-        ctx.fail(why[0] + ':' + backend, '%s [%s world=%s program=%s]' % (why[1], backend, flags, program), case)
+        ctx.fail(why[0] if why[0] == ENUM_SIG else why[0] + ':' + backend,
+                 '%s [%s world=%s program=%s]' % (why[1], backend, flags, program), case)
         failed = True
     if use_model:
         m = models.get(backend, flags, program)
@@ -982,6 +1256,7 @@ class ProgramSearch:
         self.done = False
         self.ex = sched.explore(self._once, len(program.split('|')), bound,
                                 point_filter=(relevant_point_deep if program in DEEP else
+                                              relevant_point_ctor if constructs(program) else
                                               relevant_point_render if 'colr' in program else relevant_point))
 
     def _once(self, policy):
@@ -1084,10 +1359,13 @@ def run(ctx):
             ctx.broken.append('WellLocked no longer holds of the extracted skeleton(s): %s' % ', '.join(bad))
     # programs that never touch a value (registry / Info / Enum / target-info operations only) do not depend on the value
     # back-end: they run once
-    reg_only = {'reg', 'unreg', 'unregy', 'colr', 'rcol', 'rrcol', 'rcx', 'rct', 'stn', 'sti', 'gti', 'regy', 'info', 'state', 'col'}
+    reg_only = {'reg', 'unreg', 'unregy', 'colr', 'rcol', 'rrcol', 'rcx', 'rct', 'stn', 'ste', 'sti', 'gti', 'regy', 'info', 'state',
+                'col', 'colf', 'rcn', 'gen'}
 
     def backends_of(w, p):
-        kinds = {op.split(':')[0] for t in p.split('|') for op in t.split(',')}
+        # constructing an Info / Enum allocates no value either (and the two types are not for the file-backed mode)
+        kinds = {op.split(':')[0] for t in p.split('|') for op in t.split(',')
+                 if not (op.split(':')[0] in CTOR_OPS and op.split(':')[1] in 'ie')}
         return ('mutex',) if kinds <= reg_only and not (set(w) & set('pqsh2')) else BACKENDS
     jobs = [(b, w, p, bd, m) for (w, p, bd, m) in programs for b in backends_of(w, p)]
     t_model = time.time()
